@@ -857,6 +857,10 @@ class _ProbeContextInjectorNode(_ProbeNode):
 
         data = payload.data
         context = payload.context
+        # Give the probe processor access to the pipeline context (as data nodes do)
+        # so that swept probes can publish their materialised sequences.
+        self.observer_context = context
+        setattr(self.processor, "observer_context", context)
         parameters = self._get_processor_parameters(context)
         probe_result = self.processor.process(data, **parameters)
         if isinstance(context, ContextCollectionType):
